@@ -296,10 +296,19 @@ def run(chk):
     impl_t = [parse_term(x) for x in impl]
     exprs = [f"observe {ops_term(ops)}" for ops in cases]
     exprs += [f"check_C12 {ops_term(ops)} ({impl[i]})" for i, ops in enumerate(cases)]
+    # the oracle must accept the model's own observation (C12_oracle_sound is OPEN: checked here per scenario)
+    exprs += [f"check_C12 {ops_term(ops)} (observe {ops_term(ops)})" for ops in cases]
     model = coq_eval("C12", IMPORTS, exprs)
     n = len(cases)
     model_t = [parse_term(x) for x in model[:n]]
-    oracle = model[n:]
+    oracle = model[n:2 * n]
+    model_oracle = model[2 * n:]
+    bad_mo = [i for i in range(n) if model_oracle[i].strip() != "true"]
+    chk.coverage["model_oracle_accepts"] = n - len(bad_mo)
+    for i in bad_mo[:1]:
+        chk.violation("oracle rejects the model's own observation (model / oracle inconsistency)",
+                      "correspondence E1:oracle-vs-model check_C12 rejects observe(ops)\n" + lines[i],
+                      failing_input=False)
 
     distinct = set()
     for i, ops in enumerate(cases):
